@@ -849,6 +849,10 @@ FIX_F02_P = (_P, "        while self.state not in states:\n\n            time.sl
 FIX_F02_R = (_P, "            if self.state in states:\n                return\n",
                  "            if self.state in states:\n                return self.state\n")
 
+_LOOP_OLD   = "        while self.state not in states:\n\n            time.sleep(0.1)\n"
+_LOOP_FIXED = ("        while self.state not in states and \\\n"
+               "              self.state not in rps.FINAL:\n\n            time.sleep(0.1)\n")
+
 _P_NORM = ("        if   not state                  : states = rps.FINAL\n"
            "        elif not isinstance(state, list): states = [state]\n"
            "        else                            : states = state\n")
@@ -891,17 +895,33 @@ MUTATIONS = [
     dict(name='R15.2 wait_pilots: final test inverted', rules=('R15.2',), edits=[
         (_PM, "                                  pilot.state not in rps.FINAL]",
               "                                  pilot.state in rps.FINAL]")]),
-    dict(name='R15.2 Task.wait (F02 fixed): escape with inverted polarity',
+    dict(name='R15.1 F01 reverted: elif becomes if in Task.wait',
+         rules=('R15.1',), edits=[
+        (_T, "        elif not isinstance(state, list):\n            states = [state]\n",
+             "        if not isinstance(state, list):\n            states = [state]\n")]),
+    dict(name='R15.2 F02 reverted: Task.wait loop without the final-state escape',
          rules=('R15.2',), edits=[
-        FIX_F01,
-        (_T, "        while self.state not in states:\n\n            time.sleep(0.1)\n",
-             "        while self.state not in states and \\\n              self.state in rps.FINAL:\n\n            time.sleep(0.1)\n")]),
-    dict(name='R15.2 Pilot.wait (F02 fixed): escape only for FAILED pilots',
+        (_T, _LOOP_FIXED, _LOOP_OLD)]),
+    dict(name='R15.2 F02 reverted: Pilot.wait loop without the final-state escape',
          rules=('R15.2',), edits=[
-        FIX_F02_R,
-        (_P, "        while self.state not in states:\n\n            time.sleep(0.1)\n",
-             "        while self.state not in states and \\\n              self.state not in [rps.FAILED]:\n\n            time.sleep(0.1)\n")],
+        (_P, _LOOP_FIXED, _LOOP_OLD)]),
+    dict(name='R15.3 F02 reverted: Pilot.wait bare return',
+         rules=('R15.3',), edits=[
+        (_P, "            if self.state in states:\n                return self.state\n",
+             "            if self.state in states:\n                return\n")]),
+    dict(name='R15.2 Task.wait: escape with inverted polarity',
+         rules=('R15.2',), edits=[
+        (_T, _LOOP_FIXED, _LOOP_FIXED.replace("self.state not in rps.FINAL",
+                                              "self.state in rps.FINAL"))]),
+    dict(name='R15.2 Pilot.wait: escape only for FAILED pilots',
+         rules=('R15.2',), edits=[
+        (_P, _LOOP_FIXED, _LOOP_FIXED.replace("self.state not in rps.FINAL",
+                                              "self.state not in [rps.FAILED]"))],
          note='a CANCELED pilot is still waited for'),
+    dict(name='R15.2 Task.wait: escape joined with `or`',
+         rules=('R15.2',), edits=[
+        (_T, _LOOP_FIXED, _LOOP_FIXED.replace("states and", "states or "))],
+         note='the loop continues while either test holds'),
     dict(name='R15.2 Task.wait: timeout test dropped', rules=('R15.2',), edits=[
         (_T, "            if timeout and (timeout <= (time.time() - start_wait)):\n                break\n\n            if self._tmgr._terminate.is_set():",
              "            if self._tmgr._terminate.is_set():")]),
@@ -931,27 +951,26 @@ MUTATIONS = [
               "        if ret_list: return states\n        else       : return state\n\n\n    # --------------------------------------------------------------------------\n    #\n    def _fail_missing_pilots(self):")]),
     dict(name='R15.3 Pilot.wait: state sampled before the loop is returned',
          rules=('R15.3',), edits=[
-        (_P, "        start_wait = time.time()\n        while self.state not in states:\n",
-             "        start_wait = time.time()\n        current = self.state\n        while self.state not in states:\n"),
+        (_P, "        start_wait = time.time()\n        while self.state not in states and \\\n",
+             "        start_wait = time.time()\n        current = self.state\n        while self.state not in states and \\\n"),
         (_P, "            if self._pmgr._terminate.is_set():\n                break\n\n        return self.state\n",
              "            if self._pmgr._terminate.is_set():\n                break\n\n        return current\n")]),
 ]
 
 SILENT = [
-    dict(name='F01 repaired (elif)', edits=[FIX_F01]),
-    dict(name='F01 + F02 repaired (both loops, Pilot.wait return)',
-         edits=[FIX_F01, FIX_F02_T, FIX_F02_P, FIX_F02_R]),
-    dict(name='F02 repaired with an explicit break in the body', edits=[
-        (_T, "        while self.state not in states:\n\n            time.sleep(0.1)\n",
+    dict(name='final-state escape as an explicit break in the body', edits=[
+        (_T, _LOOP_FIXED,
              "        while self.state not in states:\n\n            if self.state in rps.FINAL:\n                break\n\n            time.sleep(0.1)\n")]),
+    dict(name='final-state escape tested first', edits=[
+        (_P, _LOOP_FIXED,
+             "        while self.state not in rps.FINAL and \\\n              self.state not in states:\n\n            time.sleep(0.1)\n")]),
     dict(name='Pilot.wait normalisation as nested if / else', edits=[
         (_P, _P_NORM,
              "        if not state:\n            states = rps.FINAL\n        else:\n"
              "            if isinstance(state, list):\n                states = state\n"
              "            else:\n                states = [state]\n")]),
-    dict(name='Pilot.wait as `while True` with breaks (F02 repaired)', edits=[
-        FIX_F02_R,
-        (_P, "        while self.state not in states:\n\n            time.sleep(0.1)\n            if timeout and (timeout <= (time.time() - start_wait)):\n                break\n",
+    dict(name='Pilot.wait as `while True` with breaks', edits=[
+        (_P, _LOOP_FIXED + "            if timeout and (timeout <= (time.time() - start_wait)):\n                break\n",
              "        while True:\n\n            current = self.state\n            if current in states:\n                break\n            if current in rps.FINAL:\n                break\n\n            time.sleep(0.1)\n            if timeout and (time.time() - start_wait >= timeout):\n                break\n")]),
     dict(name='wait_tasks: final test in early-continue form', edits=[
         (_TM, "                if task.state not in rps.FINAL and \\\n                    rps._task_state_values[task.state] < check_state_val:",
